@@ -1137,9 +1137,11 @@ class History:
         mixed = len(set(comp)) > 1
         r = self.attempt(how, fn, states, must_work=not mixed)
         if mixed:
-            # mdtraj documents this as an error; it did not raise: whatever came out must not claim a complete cell
-            nf = r.n_frames
-            out = self.judge(how + "(mixed)", r, Shadow(nf, m.na), "mixed")
+            # mdtraj documents this as an error ("Mixing trajectories with and without unitcell"); it did not raise: the cell
+            # of some inputs was dropped (or invented for the others) without a word, wherever in the list they stand
+            self.ctx.violation("history.presence", f"{how}:inputs-with-and-without-cell:accepted-instead-of-refused",
+                               f"{how} of trajectories in cell states {states} returned a trajectory "
+                               f"{'with' if r.unitcell_lengths is not None else 'without'} cell instead of raising", history=self.trace[-12:])
             return
         parts = models
         if all(comp):
